@@ -92,14 +92,129 @@ def extract(repo: Path) -> dict:
             facts["execute_sites"].append(name)
     facts["helpers"] = sorted(helpers)
     facts["perm_table"] = evaluate_table(repo)
+    facts["safe_names"], facts["safe_call1"] = evaluate_function_table(repo)
+    facts["reg_table"] = evaluate_registration_table(repo)
     return facts
 
 
+REG_STYLES = ["ctor", "simple", "function", "object"]     # tools=[SimpleTool], engulf_tool(SimpleTool), register_function, engulf_tool(object)
+
+
+def evaluate_registration_table(repo: Path):
+    """Evaluate the REAL registration entry points on a complete finite domain: a name is registered through style s1
+    (constructor tools=, engulf_tool of a SimpleTool, register_function, engulf_tool of a Tool-protocol object) with
+    declaration d1, then AGAIN through style s2 with declaration d2, wrapping the same callable or another one
+    (declarations: nothing / {Capability.NET}; engine ceiling: empty set).  Per row: does the registry now hold the
+    second registration (object identity, or for register_function the callable and declaration it was given), and did
+    execute_tool_call run a body.  -> rows (s1, s2, same, d1, d2, holds_second, ran) or None (fail closed)."""
+    import sys
+    import warnings
+    warnings.filterwarnings("ignore")
+    root = str(repo)
+    if root not in sys.path:
+        sys.path.insert(0, root)
+    try:
+        from operon_ai.organelles.mitochondria import Mitochondria, SimpleTool
+        from operon_ai.core.types import Capability
+        from operon_ai.providers import ToolCall
+        import operon_ai
+        if not str(Path(operon_ai.__file__).resolve()).startswith(root):
+            return None
+        rows = []
+        for i1, s1 in enumerate(REG_STYLES):
+            for i2, s2 in enumerate(REG_STYLES):
+                if s2 == "ctor":
+                    continue
+                for same in (True, False):
+                    for d1 in ([], [0]):
+                        for d2 in ([], [0]):
+                            ran = []
+
+                            def f1(*a, **k):
+                                ran.append(1)
+                                return 1
+
+                            def f2(*a, **k):
+                                ran.append(2)
+                                return 2
+                            g = f1 if same else f2
+
+                            def obj(fn, d):
+                                class T:
+                                    name = "t"
+                                    description = "t"
+                                    parameters_schema = {"type": "object", "properties": {}}
+
+                                    def execute(self, *a, **k):
+                                        return fn(*a, **k)
+                                t = T()
+                                t.required_capabilities = {Capability.NET} if d else set()
+                                return t
+
+                            def caps(d):
+                                return {Capability.NET} if d else set()
+                            if s1 == "ctor":
+                                m = Mitochondria(allowed_capabilities=set(), silent=True,
+                                                 tools=[SimpleTool(name="t", description="1", func=f1, required_capabilities=caps(d1))])
+                            else:
+                                m = Mitochondria(allowed_capabilities=set(), silent=True)
+                                if s1 == "simple":
+                                    m.engulf_tool(SimpleTool(name="t", description="1", func=f1, required_capabilities=caps(d1)))
+                                elif s1 == "function":
+                                    m.register_function("t", f1, "1", required_capabilities=caps(d1))
+                                else:
+                                    m.engulf_tool(obj(f1, d1))
+                            if s2 == "simple":
+                                second = SimpleTool(name="t", description="2", func=g, required_capabilities=caps(d2))
+                                m.engulf_tool(second)
+                                holds = m.tools.get("t") is second
+                            elif s2 == "function":
+                                m.register_function("t", g, "2", required_capabilities=caps(d2))
+                                held = m.tools.get("t")
+                                holds = (getattr(held, "func", None) is g and getattr(held, "description", None) == "2"
+                                         and set(getattr(held, "required_capabilities", ())) == caps(d2))
+                            else:
+                                second = obj(g, d2)
+                                m.engulf_tool(second)
+                                holds = m.tools.get("t") is second
+                            m.execute_tool_call(ToolCall(id="c", name="t", arguments={}))
+                            rows.append((i1, i2, same, d1, d2, bool(holds), bool(ran)))
+        return rows
+    except Exception:
+        return None
+
+
+def evaluate_function_table(repo: Path):
+    """The names of the evaluator's function table, read off the real class: all keys, and those whose entry can be
+    called as f(4) (what an argument expression `name(4)` does).  ([], []) when the class cannot be evaluated."""
+    import sys
+    root = str(repo)
+    if root not in sys.path:
+        sys.path.insert(0, root)
+    try:
+        from operon_ai.organelles.mitochondria import Mitochondria
+        table = dict(Mitochondria.SAFE_FUNCTIONS)
+        names = sorted(k for k in table if isinstance(k, str) and k.isidentifier())
+        ok = []
+        for k in names:
+            try:
+                table[k](4)
+                ok.append(k)
+            except Exception:
+                pass
+        return names, ok
+    except Exception:
+        return [], []
+
+
 def evaluate_table(repo: Path):
-    """Evaluate the REAL ceiling test on a complete finite domain: every ceiling (None or a subset of a 3-capability
+    """Evaluate the REAL ceiling test on a complete finite domain: every ceiling (None or a subset of a 3-tag
     universe) x every declaration style (required_capabilities / capabilities each absent or a subset), through the
     public entry point execute_tool_call with a counting tool body.  -> list of rows (allowed, req, caps, ran) or None
-    when the code cannot be evaluated (fail closed)."""
+    when the code cannot be evaluated (fail closed).  The universe holds one tag of each kind a declaration may carry:
+    the core member Capability.NET, the plain string 'net' (its value) and the member NET = 'net' of a foreign Enum -
+    three different tags that agree in name and value, so a test that compares anything but the tags themselves (or
+    that only knows the core members) yields another table."""
     import itertools
     import sys
     import warnings
@@ -114,7 +229,11 @@ def evaluate_table(repo: Path):
         import operon_ai
         if not str(Path(operon_ai.__file__).resolve()).startswith(root):
             return None
-        C = list(Capability)[:3]
+        import enum
+
+        class ForeignCapability(enum.Enum):      # a plug-in's own vocabulary
+            NET = "net"
+        C = [Capability.NET, "net", ForeignCapability.NET]
         subsets = [None] + [list(c) for k in range(4) for c in itertools.combinations(range(3), k)]
         rows = []
         for al in subsets:
@@ -153,6 +272,10 @@ def render(facts: dict) -> str:
     rows = facts.get("perm_table")
     table = "none" if rows is None else "some [\n  " + ",\n  ".join(
         f"({ol(a)}, {ol(r)}, {ol(c)}, {b(ok)})" for (a, r, c, ok) in rows) + "]"
+    rrows = facts.get("reg_table")
+    regtable = "none" if rrows is None else "some [\n  " + ",\n  ".join(
+        f"({a}, {c}, {b(sm)}, [{', '.join(map(str, d1))}], [{', '.join(map(str, d2))}], {b(h)}, {b(r)})"
+        for (a, c, sm, d1, d2, h, r) in rrows) + "]"
     return f"""/- GENERATED by harness/vf/extract/e1_caps.py from operon_ai/organelles/mitochondria.py — do not edit. -/
 import Operon.Model.MitoTools
 namespace Operon.Gen.MitoCaps
@@ -165,9 +288,22 @@ def guards : Guards := ⟨{b(facts['oxidative'])}, {b(facts['toolCall'])}⟩
 def otherExecuteSites : List String := [{sites}]
 
 /-- the REAL ceiling test evaluated through `execute_tool_call` on every (ceiling, required_capabilities, capabilities)
-    over a 3-capability universe (each `none` = absent / unrestricted, or a subset): did the tool body run?
+    over a 3-tag universe - Capability.NET, 'net', ForeignCapability.NET - (each `none` = absent / unrestricted, or a subset): did the tool body run?
     `none` = the code could not be evaluated. -/
 def permTable : Option (List (Option (List Cap) × Option (List Cap) × Option (List Cap) × Bool)) := {table}
+
+/-- the REAL registration entry points evaluated on every (first style, second style, same callable?, first declaration,
+    second declaration) under the empty ceiling - styles 0 = constructor `tools=`, 1 = `engulf_tool(SimpleTool)`,
+    2 = `register_function`, 3 = `engulf_tool(object)`: does the registry hold the SECOND registration, and did
+    `execute_tool_call` run a body?  `none` = the code could not be evaluated. -/
+def regTable : Option (List (Nat × Nat × Bool × List Cap × List Cap × Bool × Bool)) := {regtable}
+
+/-- keys of the evaluator's function table `SAFE_FUNCTIONS` (a call of such a name evaluates its arguments on the
+    math/logic pathways), read off the real class -/
+def safeNames : List String := [{", ".join(chr(34) + x + chr(34) for x in facts.get("safe_names", []))}]
+
+/-- those of them for which the argument expression `name(4)` evaluates without raising -/
+def safeCall1 : List String := [{", ".join(chr(34) + x + chr(34) for x in facts.get("safe_call1", []))}]
 
 end Operon.Gen.MitoCaps
 """
